@@ -143,6 +143,10 @@ ft!(c03_q_multipointz_without_m, MultipointZ, 256, [rec(&[2], false)], 0);
 ft!(c03_q_polyline_empty_and_empty_part, Polyline, 320, [rec(&[], true), rec(&[0, 2], true)], 0);
 // H: tier=quick; unwind=34; sym=coords (all doubles), boxes; file=Polygon with a first ring in arbitrary (possibly counter-clockwise) order, 4 vertices, 8 garbage bytes; asserts=vertices and stored box returned as stored whatever the orientation
 ft!(c03_q_polygon_any_orientation, Polygon, 256, [rec(&[4], true)], 8);
+// H: tier=quick; unwind=34; sym=coords, boxes; file=Polygon whose first ring has zero vertices (two equal part offsets) followed by a ring of 3, then a Polygon with zero parts; asserts=decoded with exactly that structure (an empty ring is legal in a file), no panic
+ft!(c03_q_polygon_empty_ring, Polygon, 320, [rec(&[0, 3], true), rec(&[], true)], 0);
+// H: tier=thorough; unwind=34; sym=coords, boxes; file=PolygonZ with rings of 3 and 0 vertices (last offset == point count), no M block; asserts=as above
+ft!(c03_t_polygonz_empty_last_ring, PolygonZ, 320, [rec(&[3, 0], false)], 0);
 // H: tier=quick; unwind=34; sym=coords, boxes; file=Multipatch [fan 3, inner ring 3] without M block; asserts=patch kinds, XYZ bits, measures NO_DATA
 ft!(c03_q_multipatch_without_m, Multipatch, 400, [rec_k(&[3, 3], &[1, 3], false)], 0);
 // H: tier=thorough; unwind=34; sym=coords, boxes; file=Multipatch [strip 3] with M block then [outer ring 4] without; asserts=as above
